@@ -97,7 +97,9 @@ PLANS = {
     "C06": dict(
         mc=PARSER_MC + [mc("MC_Parser", "NC_Parser_stale.cfg", expect="ProvenanceInv", workers=4),
                         mc("MC_Parser", "NC_Parser_underflow.cfg", expect="NoFault", workers=4)],
-        families=[fam("seq", F.fam_seq, need_classes=["open", "continue", "deliver", "reject_seq_id", "reject_seq_no"])],
+        families=[fam("seq", F.fam_seq, need_classes=["open", "continue", "deliver", "reject_seq_id", "reject_seq_no"],
+                      builds=("std", "none")),
+                  fam("capacity", F.fam_capacity, builds=("std", "none"))],
         custom=[dict(run=walk_std), dict(run=walk_none), dict(run=walk_alloc, tier="thorough"), dict(run=apalache_run)],
         rule="ProvenanceInv over all histories of the bounded model (negative controls: stale group, u8 underflow); "
              "EVERY path of length <= D over 22 abstract lines replayed into the real parser and judged against the TLC "
@@ -105,6 +107,7 @@ PLANS = {
     "C07": dict(
         mc=[mc("MC_Nmea", "MC_Nmea.cfg", workers=6)],
         families=[fam("fields", F.fam_fields, twin_merge=E.tag_twin_merge, need_classes=["single", "open", "continue", "deliver"]),
+                  fam("seq", F.fam_seq, builds=("std", "none")), fam("capacity", F.fam_capacity, builds=("std", "none")),
                   fam("corpus", F.fam_corpus)],
         rule="ParseLine field extraction = Shape on the line universe; grammar-generated sentences, decode off/on twins"),
     "C08": dict(
